@@ -691,7 +691,7 @@ def check_c17(tier, seed, log=print):
                 state = after
         # directed: every class of file state relative to the expected output x (write | check), then a check
         ndirected = 0
-        for i, c in enumerate(cases[: (4 if tier == 'quick' else 40)]):
+        for i, c in enumerate(cases[: (4 if tier == 'quick' else 16)]):
             cap = caps[i]
             if cap is None or cap.strip is None or cap.codetext is None:
                 continue
